@@ -181,6 +181,7 @@ def cli(argv, capture_stdout=False, debug=None):
     with contextlib.redirect_stdout(out), contextlib.redirect_stderr(_Sink()):
         try:
             try:
+                logging.disable(logging.NOTSET)  # through the command line, logging is live (and must stay off stdout)
                 gm.main([str(a) for a in argv])
                 res = ("ok", buf.getvalue() if capture_stdout else None)
             except SystemExit as e:
